@@ -196,7 +196,15 @@ func traceFunctionAlloc(a *ssa.Alloc) (fn *ssa.Function, args int, recv types.Ty
 				fn = unwrapFunc(st.Val)
 				if fn == nil {
 					// Func: helper() where the helper returns a function literal
-					if call, ok := st.Val.(*ssa.Call); ok {
+					inner := st.Val
+					for {
+						if ct, ok := inner.(*ssa.ChangeType); ok {
+							inner = ct.X
+							continue
+						}
+						break
+					}
+					if call, ok := inner.(*ssa.Call); ok {
 						if callee := call.Common().StaticCallee(); callee != nil && inRepo(callee) && callee.Blocks != nil {
 							for _, b := range callee.Blocks {
 								if ret, ok := b.Instrs[len(b.Instrs)-1].(*ssa.Return); ok && len(ret.Results) == 1 {
